@@ -211,6 +211,19 @@ func validateArray(val reflect.Value, opts *options) error {
 	return nil
 }
 
+// derefValue returns the value behind the pointers and interfaces of v, or nil
+// if a nil pointer is met on the way.
+func derefValue(v interface{}) interface{} {
+	if v == nil {
+		return nil
+	}
+	val := chaseValue(reflect.ValueOf(v))
+	if k := val.Kind(); (k == reflect.Ptr || k == reflect.Interface) && val.IsNil() {
+		return nil
+	}
+	return val.Interface()
+}
+
 // validateNonZero implements the `nonzero` validation tag.
 // If nonzero is set, the validator is only run if field is present in config.
 // It checks for numbers and durations to be != 0, and for strings/arrays/slices
@@ -249,6 +262,8 @@ func validateNonZero(v interface{}, name string) error {
 }
 
 func validatePositive(v interface{}, _ string) error {
+	// judge the value itself, also when it is held behind a pointer
+	v = derefValue(v)
 	if v == nil {
 		return nil
 	}
@@ -278,6 +293,8 @@ func validatePositive(v interface{}, _ string) error {
 }
 
 func validateMin(v interface{}, param string) error {
+	// judge the value itself, also when it is held behind a pointer
+	v = derefValue(v)
 	if v == nil {
 		return nil
 	}
@@ -328,6 +345,8 @@ func validateMin(v interface{}, param string) error {
 }
 
 func validateMax(v interface{}, param string) error {
+	// judge the value itself, also when it is held behind a pointer
+	v = derefValue(v)
 	if v == nil {
 		return nil
 	}
